@@ -459,3 +459,61 @@ func (e *Env) gatesBefore(rule string, fn *ssa.Function, cfg gcfg, label string,
 	}
 	return n
 }
+
+// step is one element of a required emission sequence.
+type step struct {
+	name string
+	g    gate.Gate // Instr matcher
+}
+
+// sequenceOrder: under cfg, the instructions matching consecutive steps occur
+// in that order on every path: step i+1 is reachable from step i and never the
+// other way round.  Presence of each step on all paths is a separate
+// must-pass obligation (requireGates).
+func (e *Env) sequenceOrder(rule string, fn *ssa.Function, cfg gcfg, label string, steps []step) {
+	if fn == nil {
+		return
+	}
+	ctx := gate.New(e.P, e.P.VTA(), cfg.assume...)
+	reach := map[*ssa.BasicBlock]bool{}
+	for _, b := range ctx.ReachableBlocks(fn) {
+		reach[b] = true
+	}
+	sites := make([][]ssa.Instruction, len(steps))
+	for i, st := range steps {
+		for _, b := range fn.Blocks {
+			if !reach[b] {
+				continue
+			}
+			for _, in := range b.Instrs {
+				if st.g.Instr != nil && st.g.Instr(in) {
+					sites[i] = append(sites[i], in)
+				}
+			}
+		}
+	}
+	name := load.FuncName(fn)
+	for i := 0; i+1 < len(steps); i++ {
+		key := fmt.Sprintf("%s:%s:%s<%s", name, label, steps[i].name, steps[i+1].name)
+		if len(sites[i]) == 0 || len(sites[i+1]) == 0 {
+			x := e.R.Fail(rule, key, e.P.Pos(fn.Pos()), "emission step not found: "+steps[i].name+" / "+steps[i+1].name)
+			x.Config = cfg.name
+			continue
+		}
+		ok := true
+		for _, a := range sites[i] {
+			for _, b := range sites[i+1] {
+				if !ctx.Reaches(a, b) || ctx.Reaches(b, a) {
+					ok = false
+				}
+			}
+		}
+		if ok {
+			x := e.R.OK(rule, key, e.P.InstrPos(sites[i+1][0]), steps[i].name+" is emitted before "+steps[i+1].name+" on every path")
+			x.Config = cfg.name
+		} else {
+			x := e.R.Fail(rule, key, e.P.InstrPos(sites[i+1][0]), "emission order differs from the specification: "+steps[i].name+" must precede "+steps[i+1].name)
+			x.Config = cfg.name
+		}
+	}
+}
